@@ -1404,10 +1404,15 @@ func (g *Gen) paramMsg(w *World) MsgSpec {
 		lim := pick(g.R, [][2]uint64{{1, 1}, {1, 3}, {2, 5}, {3, 9}, {5, 9}, {2, 2}, {100, 300}, {4, 4}, {1, 2}})
 		fees := []uint64{1, 7, 10, 1000, 1000000}
 		p := &ParamSpec{FeeReg: pick(g.R, fees), FeeRec: pick(g.R, fees), FeePur: pick(g.R, fees), Denom: cur.Denom, DefLimit: lim[0], MaxLimit: lim[1]}
-		if g.Flags["bigfee"] && g.Prop == "C16" && g.pct(25) {
+		if g.Flags["bigfee"] && (g.Prop == "C16" && g.pct(25) || (g.Prop == "C06" || g.Prop == "C14") && g.pct(10)) || g.Prop == "C08" && g.pct(10) {
 			// values at and around the 63/64-bit boundaries (all legal: positive, default <= maximum)
 			edge := []uint64{1<<63 - 1, 1 << 63, 1<<63 + 1, ^uint64(0) - 1, ^uint64(0)}
-			switch g.R.Intn(4) {
+			kind := g.R.Intn(4)
+			if g.Prop == "C08" {
+				kind = 2 + g.R.Intn(2) // the limits, not the fees: records have to stay affordable
+				edge = append(edge, ^uint64(0), ^uint64(0), ^uint64(0))
+			}
+			switch kind {
 			case 0:
 				p.FeeReg = pick(g.R, edge)
 			case 1:
@@ -1416,7 +1421,7 @@ func (g *Gen) paramMsg(w *World) MsgSpec {
 				p.MaxLimit = pick(g.R, edge)
 			case 3:
 				p.MaxLimit = pick(g.R, edge)
-				p.DefLimit = pick(g.R, []uint64{p.MaxLimit, p.MaxLimit - 1, 1 << 62})
+				p.DefLimit = pick(g.R, []uint64{p.MaxLimit, p.MaxLimit, p.MaxLimit - 1, 1 << 62})
 			}
 			w.Fault("gov.param_edge_value")
 		}
